@@ -15,6 +15,7 @@ static int fz_rename(const char *a, const char *b) { fz_write(-1, a, strlen(a) +
 #define puts nqv_prog_puts           /* the program has its own puts(); stdio.h is already in */
 #define main nqv_pop3d_main
 #include "qmail-pop3d.c"
+#include "commands.c"                   /* the tree's command reader, included to reach its static line buffer */
 #undef main
 #undef puts
 #undef _exit
@@ -44,6 +45,8 @@ int LLVMFuzzerTestOneInput(const uint8_t *data, size_t size)
   fz_in = data; fz_inlen = size; fz_inoff = 0; fz_chunk = chunks[sel & 3]; fz_endless = 0;
   ssin.p = 0; ssin.n = sizeof ssinbuf; ssout.p = 0; sserr.p = 0; last = 0;
   if (m) { free(m); m = 0; } numm = 0;
+  FZ_FRESH(line); FZ_FRESH(filenames); FZ_FRESH(cmd);
+  if (pq.p) free(pq.p); pq.p = 0; pq.len = 0; pq.a = 0;
   if (!setjmp(fz_jb)) nqv_pop3d_main(2, args); else exited = 1;
   fz_extra[0] += numm;
   fz_outcome(exited, allowed, 0);
